@@ -53,7 +53,8 @@ class Style:
 
     def __init__(self, ctor=(), parens='full', defsym='=', stmt_sep='\n',
                  ignore_kw='ignore', comments=False, op_breaks=False,
-                 indent='', class_sep='\n', start_bare=False, quote='"'):
+                 indent='', class_sep='\n', start_bare=False, quote='"', trailing_comma=False,
+                 bracket_breaks=False, override_kw=None):
         self.ctor = frozenset(ctor)      # node kinds rendered in constructor form
         self.parens = parens             # 'full' | 'min' | 'redundant'
         self.defsym = defsym             # '=' | ':' | '=>'
@@ -65,6 +66,9 @@ class Style:
         self.class_sep = class_sep
         self.start_bare = start_bare
         self.quote = quote
+        self.trailing_comma = trailing_comma      # [a, b,]  T(a, b,)
+        self.bracket_breaks = bracket_breaks      # line breaks after [ ( , and before ] )
+        self.override_kw = override_kw            # None | 'override' | 'overrides' (rule statements)
 
 
 DEFAULT = Style()
@@ -241,16 +245,25 @@ class _R:
             return '(' + txt + ')'
         return txt
 
-    def args(self, items):
+    def args(self, items, extra=()):
         # arguments are full expressions; no parens needed in any mode, but the
-        # 'redundant' style adds them
+        # 'redundant' style adds them.  `extra`: already rendered keyword options.
         out = []
         for x in items:
             if isinstance(x, tuple) and x and x[0] == 'kw':
                 out.append('%s=%s' % (x[1], self.expr(x[2], L_LET)))
             else:
                 out.append(self.expr(x, L_LET))
-        return ', '.join(out)
+        out.extend(extra)
+        if self.st.bracket_breaks and out:
+            body = ',\n        '.join(out)
+            if self.st.trailing_comma:
+                body += ','
+            return '\n        ' + body + '\n    '
+        body = ', '.join(out)
+        if self.st.trailing_comma and out:
+            body += ','
+        return body
 
     def binop(self, a, op, b, lv):
         st = self.st
@@ -370,13 +383,13 @@ class _R:
                 kw.append('min_len=%d' % e[2])
             if e[3] is not None:
                 kw.append('max_len=%d' % e[3])
-            return 'List(%s)' % ', '.join([self.args([e[1]])] + kw)
+            return 'List(%s)' % self.args([e[1]], kw)
         if k == 'sep':
             o = {kk: v for kk, v in e[3].items() if kk != '_op'}
             kw = ['%s=%s' % (kk, o[kk]) for kk in
                   ('discard_separators', 'allow_trailer', 'allow_empty', 'require_separator')
                   if kk in o]
-            return 'Sep(%s)' % ', '.join([self.args([e[1], e[2]])] + kw)
+            return 'Sep(%s)' % self.args([e[1], e[2]], kw)
         raise ValueError(k)
 
 
@@ -389,7 +402,8 @@ def render_stmt(s, st=DEFAULT):
         ps = '' if params is None else '(%s)' % ', '.join(params)
         if st.start_bare and name == 'start' and params is None:
             return ind + r.expr(body, L_LET)
-        return '%s%s%s %s %s' % (ind, name, ps, st.defsym, r.expr(body, L_LET))
+        okw = (st.override_kw + ' ') if st.override_kw else ''
+        return '%s%s%s%s %s %s' % (ind, okw, name, ps, st.defsym, r.expr(body, L_LET))
     if k == 'irule':
         return '%s%s %s %s %s' % (ind, st.ignore_kw, s[1], st.defsym, r.expr(s[2], L_LET))
     if k == 'ignore':
